@@ -1902,6 +1902,23 @@ impl XmlDocumentTypeDeclaration {
                     parser::DeclarationMarkup::Entity(v) => match v {
                         parser::DeclarationEntity::GeneralEntity(v) => {
                             let entity = XmlEntity::node(v, declaration_id, context);
+                            for value in entity
+                                .as_entity()
+                                .unwrap()
+                                .borrow()
+                                .values()
+                                .unwrap_or_default()
+                            {
+                                match value {
+                                    XmlEntityValue::Character(v, 10) => {
+                                        char_from_char10(v)?;
+                                    }
+                                    XmlEntityValue::Character(v, _) => {
+                                        char_from_char16(v)?;
+                                    }
+                                    _ => {}
+                                }
+                            }
                             declaration.borrow_mut().push_child(entity);
                         }
                         parser::DeclarationEntity::ParameterEntity(_) => {
